@@ -179,3 +179,87 @@ def _preorder(n: ast.AST) -> tp.Iterator[ast.AST]:
     yield n
     for c in ast.iter_child_nodes(n):
         yield from _preorder(c)
+
+
+# the one backing sequence every view of an index presents, per class; checked per path on the symbolic store
+_VIEWS = {
+    'Index': {
+        '__len__': ({'len(self._labels)'}, 'length of the label array'),
+        'values': ({'self._labels'}, 'the label array'),
+        'positions': ({'self._positions'}, 'the position array'),
+        '__iter__': ({'self._labels.__iter__()', 'iter(self._labels)', "tp.cast(tp.Iterator[tp.Hashable], self._labels.__iter__())"}, 'iteration over the label array'),
+        '__reversed__': ({'reversed(self._labels)', 'self._labels[::-1].__iter__()', 'iter(self._labels[::-1])'}, 'reversed iteration over the label array'),
+    },
+    'IndexHierarchy': {
+        '__len__': ({'self._levels.__len__()', 'self._blocks.__len__()', 'len(self._levels)', 'len(self._blocks)'}, 'length of the tree (stale) / the table (fresh)'),
+        'values': ({'self._blocks.values'}, 'the 2-D table'),
+        'positions': ({'PositionsAllocator.get(self.__len__())', 'PositionsAllocator.get(len(self))'}, '0..n-1 for the current length'),
+        'depth': ({'self._levels.depth', 'self._blocks.shape[1]', 'self._blocks._shape[1]'}, 'depth of the tree (stale) / width of the table (fresh)'),
+        'shape': ({'(self._levels.__len__(), self._levels.depth)', 'self._blocks._shape', 'self._blocks.shape'}, 'tree length and depth (stale) / table shape (fresh)'),
+    },
+}
+
+
+_BACKING = {'Index': {'self.values': 'self._labels', 'self.positions': 'self._positions'},
+            'IndexHierarchy': {'self.values': 'self._blocks.values'}}
+
+
+def _through_properties(text: str, cname: str, method: str) -> str:
+    '''A view may be stated through another public view of the same object (len(self.values)): read it through.'''
+    import re
+    for prop, backing in _BACKING.get(cname, {}).items():
+        if prop.split('.')[1] == method:
+            continue
+        text = re.sub(re.escape(prop) + r'(?![A-Za-z0-9_])', backing, text)
+    return text
+
+
+def views_agree(ctx: Ctx) -> None:
+    R = 'G.index-views'
+    ctx.rule(R, 'every view of an index is a view of one backing sequence: Index __len__ / values / positions / __iter__ / __reversed__ return exactly the label '
+             '(position) array or its length / iterator / reversed iterator; IndexHierarchy __len__ / depth / shape read the tree while the table is stale and the table '
+             'otherwise, values is the table, positions is 0..n-1 for the current length, __iter__ delegates to the tree, __reversed__ walks the table rows in '
+             'reverse, __contains__ asks the tree (freshness of these reads is B.recache)', floor=12)
+    from sfa.symenv import SymEnv
+    prog = ctx.prog
+    n = 0
+    for cname, table in _VIEWS.items():
+        for m, (want, what) in table.items():
+            f = prog.method(cname, m, inherited=False)
+            se = SymEnv(f.node, watch=lambda x: isinstance(x, ast.Return), keep_fact=lambda t: t == 'self._recache').run()
+            got = set()
+            for node, worlds in se.all_sites():
+                for w in worlds:
+                    got.add(_through_properties(se.text(node.value, w), cname, m))
+            n += 1
+            good = bool(got) and got <= want
+            if good and cname == 'IndexHierarchy' and m in ('__len__', 'depth', 'shape'):
+                # stale -> tree, fresh -> table
+                for node, worlds in se.all_sites():
+                    for w in worlds:
+                        stale = se.facts(w).get('self._recache')
+                        t = se.text(node.value, w)
+                        if stale is True and '_levels' not in t:
+                            good = False
+                        if stale is False and '_blocks' not in t:
+                            good = False
+            (ctx.ok if good else ctx.bad)(R, f, f.node, f'{what}' if good else f'{cname}.{m} returns {sorted(got)}: not {what}', key=f'{cname}.{m}')
+    ih = prog.cls('IndexHierarchy')
+    it = ih.methods['__iter__']
+    ys = [y for y in walk_local(it.node) if isinstance(y, (ast.Yield, ast.YieldFrom))]
+    good = len(ys) == 1 and isinstance(ys[0], ast.YieldFrom) and norm(ys[0].value) in ('self._levels.__iter__()', 'iter(self._levels)')
+    n += 1
+    (ctx.ok if good else ctx.bad)(R, it, it.node, 'iteration delegates to the tree (always current)' if good else 'IndexHierarchy.__iter__ no longer delegates to the tree', key='IndexHierarchy.__iter__')
+    rv = ih.methods['__reversed__']
+    loops = [lp for lp in walk_local(rv.node) if isinstance(lp, ast.For)]
+    good = len(loops) == 1 and isinstance(loops[0].iter, ast.Call) and norm(loops[0].iter.func) == 'self._blocks.axis_values' and norm(kwarg(loops[0].iter, 'reverse')) == 'True' \
+        and loops[0].iter.args and norm(loops[0].iter.args[0]) == '1' \
+        and any(isinstance(y, ast.Yield) and isinstance(y.value, ast.Call) and call_name(y.value) == 'tuple' and norm(y.value.args[0]) == norm(loops[0].target) for y in ast.walk(loops[0]))
+    n += 1
+    (ctx.ok if good else ctx.bad)(R, rv, rv.node, 'reversed iteration yields the table rows last to first as tuples' if good else 'IndexHierarchy.__reversed__ does not walk the table rows in reverse', key='IndexHierarchy.__reversed__')
+    co = ih.methods['__contains__']
+    rets = [r for r in walk_local(co.node) if isinstance(r, ast.Return)]
+    good = len(rets) == 1 and norm(rets[0].value) in (f'self._levels.__contains__({co.params[1]})', f'{co.params[1]} in self._levels')
+    n += 1
+    (ctx.ok if good else ctx.bad)(R, co, co.node, 'membership asks the tree' if good else 'IndexHierarchy.__contains__ does not ask the tree', key='IndexHierarchy.__contains__')
+    ctx.require(n >= 12, 'index view methods')
